@@ -1412,6 +1412,15 @@ def joins(rep, idx):
                         rep.ok("C19.6", f.site, what, f"{h.qual}() yields f-strings / str() values only", nontrivial=False)
                     else:
                         rep.unk("C19.6", f.site, what, "cannot tell whether the helper yields strings only")
+                elif isinstance(a, (ast.Tuple, ast.List)) and not any(isinstance(e_, ast.Starred) for e_ in a.elts):
+                    # a display: every element is a string literal, an f-string or a str()/repr()/format() value
+                    def strish(e_):
+                        return isinstance(e_, ast.JoinedStr) or (isinstance(e_, ast.Constant) and isinstance(e_.value, str)) or \
+                            (isinstance(e_, ast.Call) and isinstance(e_.func, ast.Name) and e_.func.id in ("str", "repr", "format"))
+                    if all(strish(e_) for e_ in a.elts):
+                        rep.ok("C19.6", f.site, what, "every element of the display is a string literal / str() / repr() value", nontrivial=False)
+                    else:
+                        rep.unk("C19.6", f.site, what, "cannot tell whether every element of the display is a string")
                 else:
                     rep.unk("C19.6", f.site, what, "unrecognised join argument")
 
